@@ -226,6 +226,13 @@ fn queries(o: &Object, spec: &Spec, keys: &[String], out: &mut Out) -> String {
             && o.get_with_index(ks).map(|(i, v)| (i, v.clone())).eq(p.iter().map(|&i| (i, spec[i].1.clone())))
             && o.get_entries_with_index(ks).map(|(i, e)| (i, e.value.clone())).eq(p.iter().map(|&i| (i, spec[i].1.clone())));
         out.oracle(ok, "key queries = linear scan of the entries", || format!("key {:?}: index_of {:?} indexes {:?} vs scan {:?}", ks, o.index_of(ks), idxs, p));
+        // the lookup iterators behave like the finite sequences they stand for
+        let laws = iter_laws(|| o.indexes_of(ks))
+            .and_then(|_| iter_laws(|| o.get(ks)))
+            .and_then(|_| iter_laws(|| o.get_entries(ks).map(|e| (e.key.as_str(), &e.value))))
+            .and_then(|_| iter_laws(|| o.get_with_index(ks)))
+            .and_then(|_| iter_laws(|| o.get_entries_with_index(ks).map(|(i, e)| (i, &e.value))));
+        out.oracle(laws.is_ok(), "lookup iterators obey the Iterator laws (nth, count, last, size_hint, skip, step_by)", || format!("key {:?}: {}", ks, laws.clone().unwrap_err()));
         let u = match o.get_unique(ks) { Ok(None) => 0, Ok(Some(v)) => { if p.len() == 1 && *v == spec[p[0]].1 { 1 } else { 99 } } Err(d) => { if p.len() >= 2 && d.0.value == spec[p[0]].1 && d.1.value == spec[p[1]].1 { 2 } else { 99 } } };
         let ue = match o.get_unique_entry(ks) { Ok(None) => 0, Ok(Some(_)) => 1, Err(_) => 2 };
         out.oracle(u == p.len().min(2) && ue == p.len().min(2), "unique lookups = linear scan", || format!("key {:?}: {} matches", ks, p.len()));
